@@ -90,7 +90,7 @@ def _grid_frames(gs, grid_size):
 def _check_vectors(lams, grid_limit, distinct):
     for k, v in enumerate(lams):
         need(np.all(np.isfinite(v)) and v.min() >= 0.0, f"lambda_vecs_ column {k} has a negative / non-finite entry: {v.tolist()}")
-        need(v.sum() <= grid_limit + 1e-9, f"lambda_vecs_ column {k} has L1 norm {v.sum()!r} > grid_limit={grid_limit!r}")
+        need(v.sum() <= grid_limit + 1e-9, f"lambda_vecs_ column {k} has L1 norm {float(v.sum())!r} > grid_limit={grid_limit!r}")
     if distinct:
         seen = {}
         for k, v in enumerate(lams):
@@ -147,7 +147,7 @@ def _check_parity(case, distinct):
         need(abs(value - best) <= TOL_BR,
              f"predictor {k} has err + lambda.gamma = {value!r}; the minimum over H is {best!r} (lambda={lams[k].tolist()})")
         obj = gs.objectives_[k]
-        need(np.ndim(obj) == 0 and abs(float(obj) - e) <= TOL_REC, f"objectives_[{k}]={obj!r}, error of predictor {k} is {e!r}")
+        need(np.ndim(obj) == 0 and abs(float(obj) - e) <= TOL_REC, f"objectives_[{k}]={float(obj)!r}, error of predictor {k} is {e!r}")
         rec = P.align(gam_df.iloc[:, k], f"gammas_ column {k}")
         need(np.max(np.abs(rec - g)) <= TOL_REC, f"gammas_ column {k} = {rec.tolist()}, gamma of predictor {k} = {g.tolist()}")
         errs.append(e)
@@ -263,7 +263,7 @@ def check_bgl(case):
              f"regressor {k} has lambda.gamma = {value!r}; the minimum over functions of the level is {best!r} (lambda={lams[k].tolist()})")
         obj = gs.objectives_[k]
         need(np.ndim(obj) == 0 and abs(float(obj) - float(ls.mean())) <= TOL_REC,
-             f"objectives_[{k}]={obj!r}, mean loss of regressor {k} is {float(ls.mean())!r}")
+             f"objectives_[{k}]={float(obj)!r}, mean loss of regressor {k} is {float(ls.mean())!r}")
         rec = _bgl_align(gam_df.iloc[:, k], groups, f"gammas_ column {k}")
         need(np.max(np.abs(rec - g)) <= TOL_REC, f"gammas_ column {k} = {rec.tolist()}, group losses of regressor {k} = {g.tolist()}")
         objs.append(float(ls.mean()))
